@@ -29,6 +29,21 @@ def make_cases(ctx, n):
     return cases
 
 
+def name_cases(ctx):
+    """condition fields named like identifiers of the generated code / the host language: routing is on the caller's value of the
+    field, whatever the generated function calls its own locals"""
+    rng = ctx.rng
+    L = lambda t: gen.lit_str(t, quote='"')
+    one = lambda t: ("ret", [(L(t), "1")])
+    cases = []
+    for nm in gen.host_names():
+        cond = ("if", ("cmp", ("id", nm), ">", ("lit", gen.lit_int(3))), one("hi"),
+                ("elif", ("cmp", ("id", nm), "==", ("lit", gen.lit_int(3))), one("eq"), ("else", one("lo"))))
+        prog = gen.Program("e", L("s"), ["uid"], cond, {"uid": "any", nm: "int"})
+        cases.append({"prog": prog, "text": gen.render(prog, rng, "plain"), "envs": [{"uid": "u%d" % k, nm: v} for k, v in enumerate((5, 3, 1, 3.5))]})
+    return cases
+
+
 def run(ctx):
     n = N[ctx.tier]
     if ctx.obligation_breaks or ctx.tie_breaks:
@@ -37,8 +52,8 @@ def run(ctx):
                          "statement (the result identifies the branch); inputs derived from each literal (equal, ±1, "
                          "±1ulp, other type); distinct = distinct source text; non-trivial = compiled")
     ctx.extra["table_obligations"] = 1
-    progcases.run_cases(ctx, make_cases(ctx, n))
+    progcases.run_cases(ctx, name_cases(ctx) + make_cases(ctx, n))
 
 
 def search(ctx):
-    progcases.run_cases(ctx, make_cases(ctx, 2000), check_model=False, want_stages=False)
+    progcases.run_cases(ctx, name_cases(ctx) + make_cases(ctx, 2000), check_model=False, want_stages=False)
